@@ -171,7 +171,7 @@ type edge struct {
 
 type leaf struct {
 	g    guard
-	kind string // Acquire ChanOp Select CondWait WaitGroupWait
+	kind string // Acquire ChanOp Select CondWait WaitGroupWait Sleep SpinLoad
 	lock int
 	pos  string
 }
@@ -205,6 +205,19 @@ type node struct {
 	recvVar *types.Var
 	recvT   *types.Named
 	synth   bool
+	// shared-state skeleton
+	reads     map[string]bool // fields of the shared struct types / package variables read here
+	writes    map[string]bool // ... written here (assignment, ++, &x, atomic Store/Add/Swap/CAS)
+	loads     bool            // performs an atomic Load / CompareAndSwap itself
+	loopCalls []loopCall      // static calls made from inside a loop
+	loops     int             // for/range statements (function literals included), top-level functions only
+	atomics   int             // calls into sync/atomic (function literals included)
+}
+
+type loopCall struct {
+	g      guard
+	callee int
+	pos    token.Pos
 }
 
 type addrTaken struct {
@@ -229,6 +242,7 @@ type gen struct {
 	results   [][2]int
 	exported  []int
 	entryType map[string]bool
+	fields    []string
 }
 
 func (g *gen) refuse(pos token.Pos, format string, a ...any) {
@@ -419,6 +433,8 @@ type fctx struct {
 	// identifiers already handled as part of a selector / call
 	skipIdent map[*ast.Ident]bool
 	callFun   map[ast.Expr]bool
+	loop      int               // lexical loop depth
+	written   map[ast.Expr]bool // selector / identifier expressions in a writing position
 }
 
 func (c *fctx) slotIndex(e ast.Expr) (int, bool) {
@@ -532,13 +548,34 @@ func (c *fctx) stmt(s ast.Stmt, gd guard) guard {
 		if x.Init != nil {
 			c.stmt(x.Init, gd)
 		}
+		c.loop++
 		if x.Cond != nil {
 			c.exprs(x.Cond, gd)
+			// a loop whose condition reads router-level mutable state (a field of Router, a package
+			// variable) waits for somebody else to change it
+			ast.Inspect(x.Cond, func(y ast.Node) bool {
+				switch z := y.(type) {
+				case *ast.FuncLit:
+					return false
+				case *ast.SelectorExpr:
+					if strings.HasPrefix(c.fieldName(z), "fox.Router.") {
+						c.leaf(gd, "SpinLoad", 0, z.Pos())
+					}
+				case *ast.Ident:
+					if v, ok := c.p.info.Uses[z].(*types.Var); ok && v.Pkg() != nil && c.g.analysed[v.Pkg()] != nil && v.Parent() == v.Pkg().Scope() {
+						if _, isIface := v.Type().Underlying().(*types.Interface); !isIface {
+							c.leaf(gd, "SpinLoad", 0, z.Pos())
+						}
+					}
+				}
+				return true
+			})
 		}
 		if x.Post != nil {
 			c.stmt(x.Post, gd)
 		}
 		c.stmts(x.Body.List, gd)
+		c.loop--
 	case *ast.RangeStmt:
 		c.exprs(x.X, gd)
 		if tv, ok := c.p.info.Types[x.X]; ok && tv.Type != nil {
@@ -550,7 +587,13 @@ func (c *fctx) stmt(s ast.Stmt, gd guard) guard {
 				c.n.pend = append(c.n.pend, pending{g: gd, kind: "dyn", sig: u, pos: c.g.pos(x.Pos()), desc: "range over func"})
 			}
 		}
+		if x.Tok == token.ASSIGN {
+			c.markWritten(x.Key)
+			c.markWritten(x.Value)
+		}
+		c.loop++
 		c.stmts(x.Body.List, gd)
+		c.loop--
 	case *ast.SwitchStmt:
 		if x.Init != nil {
 			c.stmt(x.Init, gd)
@@ -592,7 +635,17 @@ func (c *fctx) stmt(s ast.Stmt, gd guard) guard {
 		c.leaf(gd, "ChanOp", 0, x.Pos())
 		c.exprs(x.Chan, gd)
 		c.exprs(x.Value, gd)
-	case *ast.AssignStmt, *ast.ExprStmt, *ast.ReturnStmt, *ast.IncDecStmt, *ast.DeclStmt, *ast.BranchStmt, *ast.EmptyStmt:
+	case *ast.AssignStmt:
+		if x.Tok != token.DEFINE {
+			for _, l := range x.Lhs {
+				c.markWritten(l)
+			}
+		}
+		c.exprs(x, gd)
+	case *ast.IncDecStmt:
+		c.markWritten(x.X)
+		c.exprs(x, gd)
+	case *ast.ExprStmt, *ast.ReturnStmt, *ast.DeclStmt, *ast.BranchStmt, *ast.EmptyStmt:
 		c.exprs(x, gd)
 	default:
 		c.g.refuse(s.Pos(), "statement of unknown shape %T", s)
@@ -602,6 +655,105 @@ func (c *fctx) stmt(s ast.Stmt, gd guard) guard {
 
 func (c *fctx) leaf(gd guard, kind string, lock int, p token.Pos) {
 	c.n.leaves = append(c.n.leaves, leaf{g: gd, kind: kind, lock: lock, pos: c.g.pos(p)})
+}
+
+// markWritten records the field / variable that an assignment target designates:
+// x.f = .., x.f[i] = .., *x.f = .., x.f.g = .. (struct-valued f) all write f.
+func (c *fctx) markWritten(e ast.Expr) {
+	for e != nil {
+		e = unparen(e)
+		switch x := e.(type) {
+		case *ast.IndexExpr:
+			e = x.X
+		case *ast.StarExpr:
+			e = x.X
+		case *ast.SliceExpr:
+			e = x.X
+		case *ast.SelectorExpr:
+			if c.written == nil {
+				c.written = map[ast.Expr]bool{}
+			}
+			c.written[x] = true
+			// x.f.g = ..: if f holds a struct by value, f is written too
+			if tv, ok := c.p.info.Types[x.X]; ok && tv.Type != nil {
+				if _, isStruct := tv.Type.Underlying().(*types.Struct); isStruct {
+					e = x.X
+					continue
+				}
+			}
+			return
+		case *ast.Ident:
+			if c.written == nil {
+				c.written = map[ast.Expr]bool{}
+			}
+			c.written[x] = true
+			return
+		default:
+			return
+		}
+	}
+}
+
+// sharedTypes: the long-lived structures through which readers and writers of a router meet.
+var sharedTypes = map[string]bool{"Router": true, "Txn": true, "iTree": true}
+
+// fieldName names a field of a shared struct type of the root package, "" otherwise.
+func (c *fctx) fieldName(sel *ast.SelectorExpr) string {
+	s := c.p.info.Selections[sel]
+	if s == nil || s.Kind() != types.FieldVal {
+		return ""
+	}
+	owner := recvNamed(s.Recv())
+	if owner == nil {
+		return ""
+	}
+	t := owner
+	ix := s.Index()
+	for _, i := range ix[:len(ix)-1] { // promoted through embedded structs: the declaring struct owns the field
+		st, ok := t.Underlying().(*types.Struct)
+		if !ok {
+			return ""
+		}
+		t = recvNamed(st.Field(i).Type())
+		if t == nil {
+			return ""
+		}
+	}
+	if t.Obj().Pkg() == nil || t.Obj().Pkg().Path() != c.g.l.modpath || !sharedTypes[t.Obj().Name()] {
+		return ""
+	}
+	return t.Obj().Pkg().Name() + "." + t.Obj().Name() + "." + s.Obj().Name()
+}
+
+func (c *fctx) access(name string, write bool) {
+	if name == "" {
+		return
+	}
+	if c.n.reads == nil {
+		c.n.reads, c.n.writes = map[string]bool{}, map[string]bool{}
+	}
+	if write {
+		c.n.writes[name] = true
+	} else {
+		c.n.reads[name] = true
+	}
+}
+
+// atomicOp classifies a call into sync/atomic: "", "load", "store" (Store/Add/Swap/And/Or), "cas".
+func atomicOp(fn *types.Func) string {
+	if fn.Pkg() == nil || fn.Pkg().Path() != "sync/atomic" {
+		return ""
+	}
+	n := fn.Name()
+	switch {
+	case strings.HasPrefix(n, "Load"):
+		return "load"
+	case strings.HasPrefix(n, "CompareAndSwap"):
+		return "cas"
+	case strings.HasPrefix(n, "Store"), strings.HasPrefix(n, "Add"), strings.HasPrefix(n, "Swap"), strings.HasPrefix(n, "And"), strings.HasPrefix(n, "Or"):
+		return "store"
+	}
+	return "other"
 }
 
 func (g *gen) closure(parent *node, lit *ast.FuncLit, p *apkg) *node {
@@ -651,8 +803,17 @@ func (c *fctx) exprs(n ast.Node, gd guard) {
 			if e.Op == token.ARROW {
 				c.leaf(gd, "ChanOp", 0, e.Pos())
 			}
+			if e.Op == token.AND {
+				c.markWritten(e.X) // address taken: may be written through the pointer
+			}
 		case *ast.SelectorExpr:
 			c.skipIdent[e.Sel] = true
+			if fname := c.fieldName(e); fname != "" {
+				c.access(fname, c.written[e])
+			}
+			if v, ok := info.Uses[e.Sel].(*types.Var); ok && info.Selections[e] == nil && v.Pkg() != nil && c.g.analysed[v.Pkg()] != nil && v.Parent() == v.Pkg().Scope() {
+				c.access("var "+v.Pkg().Name()+"."+v.Name(), c.written[e])
+			}
 			if fn, ok := info.Uses[e.Sel].(*types.Func); ok && !c.callFun[e] {
 				c.takeAddr(fn, info.Types[e].Type, e.Pos())
 			}
@@ -665,6 +826,9 @@ func (c *fctx) exprs(n ast.Node, gd guard) {
 			}
 			if fn, ok := info.Uses[e].(*types.Func); ok && !c.callFun[e] {
 				c.takeAddr(fn, info.Types[e].Type, e.Pos())
+			}
+			if v, ok := info.Uses[e].(*types.Var); ok && v.Pkg() != nil && c.g.analysed[v.Pkg()] != nil && v.Parent() == v.Pkg().Scope() {
+				c.access("var "+v.Pkg().Name()+"."+v.Name(), c.written[e])
 			}
 			if o, ok := info.Uses[e].(*types.Var); ok && isSyncType(o.Type(), "Mutex", "RWMutex", "Cond", "WaitGroup") && !c.g.okMutex[e] {
 				c.g.refuse(e.Pos(), "a sync primitive variable %s is used as a value: unknown shape", e.Name)
@@ -743,6 +907,9 @@ func (c *fctx) staticEdge(call *ast.CallExpr, callee *node, recvExpr ast.Expr, g
 		}
 	}
 	c.n.edges = append(c.n.edges, edge{g: gd, callee: callee.id, args: args, why: why})
+	if c.loop > 0 {
+		c.n.loopCalls = append(c.n.loopCalls, loopCall{gd, callee.id, call.Pos()})
+	}
 }
 
 func (c *fctx) lockObject(call *ast.CallExpr, sel *ast.SelectorExpr) (int, bool) {
@@ -838,6 +1005,29 @@ func (c *fctx) external(call *ast.CallExpr, fn *types.Func, sel *ast.SelectorExp
 	case "(*sync.RWMutex).RLocker", "sync.NewCond":
 		c.g.refuse(call.Pos(), "%s: unknown shape", full)
 		return
+	case "time.Sleep", "runtime.Gosched":
+		c.leaf(gd, "Sleep", 0, call.Pos())
+		return
+	}
+	if op := atomicOp(fn); op != "" {
+		// the receiver field (fox.tree.Load(), fox.writers.Add(1)) is read or written accordingly
+		if sel != nil {
+			if rx, ok := unparen(sel.X).(*ast.SelectorExpr); ok && (op == "store" || op == "cas") {
+				c.access(c.fieldName(rx), true)
+			}
+			if rx, ok := unparen(sel.X).(*ast.Ident); ok && (op == "store" || op == "cas") {
+				if v, ok := info.Uses[rx].(*types.Var); ok && v.Pkg() != nil && c.g.analysed[v.Pkg()] != nil && v.Parent() == v.Pkg().Scope() {
+					c.access("var "+v.Pkg().Name()+"."+v.Name(), true)
+				}
+			}
+		}
+		if op == "load" || op == "cas" {
+			c.n.loads = true
+			if c.loop > 0 {
+				c.leaf(gd, "SpinLoad", 0, call.Pos()) // observes shared state from inside a loop
+			}
+		}
+		return
 	}
 	if noCallback[full] {
 		return
@@ -923,6 +1113,9 @@ func (c *fctx) call(call *ast.CallExpr, gd guard) {
 		c.callFun[f] = true
 		cl := c.g.closure(c.n, f, c.p)
 		c.n.edges = append(c.n.edges, edge{g: gd, callee: cl.id, why: "call of function literal"})
+		if c.loop > 0 {
+			c.n.loopCalls = append(c.n.loopCalls, loopCall{gd, cl.id, call.Pos()})
+		}
 	case *ast.Ident:
 		switch o := info.Uses[f].(type) {
 		case *types.Builtin:
@@ -1023,6 +1216,26 @@ func (g *gen) bodies() {
 					}
 					c := &fctx{g: g, p: p, n: n, skipIdent: map[*ast.Ident]bool{}, callFun: map[ast.Expr]bool{}}
 					c.stmts(x.Body.List, nil)
+					ast.Inspect(x.Body, func(y ast.Node) bool {
+						switch z := y.(type) {
+						case *ast.ForStmt, *ast.RangeStmt:
+							n.loops++
+						case *ast.CallExpr:
+							var id *ast.Ident
+							switch f := unparen(z.Fun).(type) {
+							case *ast.Ident:
+								id = f
+							case *ast.SelectorExpr:
+								id = f.Sel
+							}
+							if id != nil {
+								if fn, ok := p.info.Uses[id].(*types.Func); ok && fn.Pkg() != nil && fn.Pkg().Path() == "sync/atomic" {
+									n.atomics++
+								}
+							}
+						}
+						return true
+					})
 				case *ast.GenDecl:
 					if x.Tok != token.VAR {
 						continue
@@ -1034,6 +1247,106 @@ func (g *gen) bodies() {
 						}
 					}
 				}
+			}
+		}
+	}
+}
+
+// syncKind: "" unless values of type t are synchronisation / communication objects
+// (anything from sync or sync/atomic, channels), looking through pointers, slices, arrays and maps.
+func syncKind(t types.Type, depth int) string {
+	if depth > 6 {
+		return ""
+	}
+	switch x := types.Unalias(t).(type) {
+	case *types.Named:
+		if pk := x.Obj().Pkg(); pk != nil && (pk.Path() == "sync" || pk.Path() == "sync/atomic") {
+			return pk.Name() + "." + x.Obj().Name()
+		}
+		if _, ok := x.Underlying().(*types.Chan); ok {
+			return "chan"
+		}
+	case *types.Chan:
+		return "chan"
+	case *types.Pointer:
+		return syncKind(x.Elem(), depth+1)
+	case *types.Slice:
+		return syncKind(x.Elem(), depth+1)
+	case *types.Array:
+		return syncKind(x.Elem(), depth+1)
+	case *types.Map:
+		return syncKind(x.Elem(), depth+1)
+	case *types.Struct:
+		for i := 0; i < x.NumFields(); i++ {
+			if k := syncKind(x.Field(i).Type(), depth+1); k != "" {
+				return "struct{" + k + "}"
+			}
+		}
+	}
+	return ""
+}
+
+// syncInventory lists every struct field and package-level variable of the analysed packages
+// through which goroutines can synchronise or communicate.
+func (g *gen) syncInventory() []string {
+	var out []string
+	for _, p := range g.l.order {
+		sc := p.pkg.Scope()
+		for _, nm := range sc.Names() {
+			switch o := sc.Lookup(nm).(type) {
+			case *types.TypeName:
+				if o.IsAlias() {
+					continue
+				}
+				if st, ok := o.Type().Underlying().(*types.Struct); ok {
+					for i := 0; i < st.NumFields(); i++ {
+						if k := syncKind(st.Field(i).Type(), 0); k != "" {
+							out = append(out, fmt.Sprintf("%s.%s.%s : %s", p.short, o.Name(), st.Field(i).Name(), k))
+						}
+					}
+				} else if k := syncKind(o.Type().Underlying(), 0); k != "" {
+					out = append(out, fmt.Sprintf("type %s.%s : %s", p.short, o.Name(), k))
+				}
+			case *types.Var:
+				if k := syncKind(o.Type(), 0); k != "" {
+					out = append(out, fmt.Sprintf("var %s.%s : %s", p.short, o.Name(), k))
+				}
+			}
+		}
+	}
+	sort.Strings(out)
+	return out
+}
+
+// spinCalls: a call made from inside a loop to a function that (through direct
+// calls only) performs an atomic Load / CompareAndSwap observes shared state on
+// every iteration: recorded as a SpinLoad leaf at the call site.
+func (g *gen) spinCalls() {
+	may := map[int]bool{}
+	for _, n := range g.nodes {
+		if n.loads {
+			may[n.id] = true
+		}
+	}
+	for changed := true; changed; {
+		changed = false
+		for _, n := range g.nodes {
+			if may[n.id] {
+				continue
+			}
+			for _, e := range n.edges { // before resolve(): direct calls and calls of function literals only
+				if may[e.callee] {
+					may[n.id] = true
+					changed = true
+					break
+				}
+			}
+		}
+	}
+	for _, n := range g.nodes {
+		for _, lc := range n.loopCalls {
+			if may[lc.callee] {
+				n.leaves = append(n.leaves, leaf{g: lc.g, kind: "SpinLoad", pos: g.pos(lc.pos)})
 			}
 		}
 	}
@@ -1685,6 +1998,21 @@ func (g *gen) coqLeaf(l leaf) string {
 	}
 }
 
+// shapeRows: the methods of Router and Txn, in declaration order.
+func (g *gen) shapeRows() []*node {
+	var out []*node
+	for _, n := range g.nodes {
+		if n.fn == nil || n.recvT == nil || n.fn.Pkg() == nil || n.fn.Pkg().Path() != g.l.modpath {
+			continue
+		}
+		if nm := n.recvT.Obj().Name(); nm != "Router" && nm != "Txn" {
+			continue
+		}
+		out = append(out, n)
+	}
+	return out
+}
+
 func (g *gen) write(out string) error {
 	var sb strings.Builder
 	sb.WriteString("(* GENERATED by harness/cmd/cggen from the Go sources of fox — do not edit.\n")
@@ -1743,6 +2071,58 @@ func (g *gen) write(out string) error {
 		}
 		fmt.Fprintf(&sb, "  %q", n.name)
 	}
+	// shared-state skeleton: field table, per function reads / writes, shape of the Router / Txn methods
+	fset := map[string]bool{}
+	for _, n := range g.nodes {
+		for k := range n.reads {
+			fset[k] = true
+		}
+		for k := range n.writes {
+			fset[k] = true
+		}
+	}
+	g.fields = g.fields[:0]
+	for k := range fset {
+		g.fields = append(g.fields, k)
+	}
+	sort.Strings(g.fields)
+	fid := map[string]int{}
+	for i, k := range g.fields {
+		fid[k] = i
+	}
+	coqFields := func(m map[string]bool) string {
+		var ids []int
+		for k := range m {
+			ids = append(ids, fid[k])
+		}
+		sort.Ints(ids)
+		ss := make([]string, len(ids))
+		for i, x := range ids {
+			ss[i] = fmt.Sprintf("%d%%N", x)
+		}
+		return "[" + strings.Join(ss, "; ") + "]"
+	}
+	sb.WriteString("\n].\n\n(* fields of Router / Txn / iTree and package-level variables that are accessed somewhere *)\nDefinition field_names : list string := [\n")
+	for i, k := range g.fields {
+		if i > 0 {
+			sb.WriteString(";\n")
+		}
+		fmt.Fprintf(&sb, "  %q", k)
+	}
+	sb.WriteString("\n].\n\n(* every struct field / package variable of the analysed packages that is a synchronisation or communication object *)\nDefinition sync_inventory : list string := [\n")
+	for i, k := range g.syncInventory() {
+		if i > 0 {
+			sb.WriteString(";\n")
+		}
+		fmt.Fprintf(&sb, "  %q", k)
+	}
+	sb.WriteString("\n].\n\n(* methods of Router and Txn: (name, (for/range statements, calls into sync/atomic)), function literals included *)\nDefinition shape_table : list (string * (nat * nat)) := [\n")
+	for i, n := range g.shapeRows() {
+		if i > 0 {
+			sb.WriteString(";\n")
+		}
+		fmt.Fprintf(&sb, "  (%q, (%d, %d))", n.name, n.loops, n.atomics)
+	}
 	sb.WriteString("\n].\n\nDefinition graph : graph := [\n")
 	for i, n := range g.nodes {
 		if i > 0 {
@@ -1762,7 +2142,7 @@ func (g *gen) write(out string) error {
 			}
 			fmt.Fprintf(&sb, "mkleaf %s (%s)", coqGuard(l.g), g.coqLeaf(l))
 		}
-		sb.WriteString("]")
+		fmt.Fprintf(&sb, "] %s %s", coqFields(n.reads), coqFields(n.writes))
 	}
 	sb.WriteString("\n].\n")
 	tmp := out + ".tmp"
@@ -1831,6 +2211,7 @@ func main() {
 	g.declareFuncs(bad)
 	g.collectNamed()
 	g.bodies()
+	g.spinCalls()
 	g.entries()
 	g.resolve()
 	if len(g.refusals) > 0 {
@@ -1882,16 +2263,24 @@ func main() {
 		}
 	}
 	names := make([]string, len(g.nodes))
+	shapes := map[string][2]int{}
 	for i, n := range g.nodes {
 		names[i] = n.name
+		if n.loops > 0 || n.atomics > 0 {
+			shapes[n.name] = [2]int{n.loops, n.atomics}
+		}
 	}
 	var pkgs []string
 	for _, p := range l.order {
 		pkgs = append(pkgs, p.path)
 	}
+	var shapeRows []string
+	for _, n := range g.shapeRows() {
+		shapeRows = append(shapeRows, fmt.Sprintf("%s: %d for/range statement(s), %d sync/atomic call(s) [%s]", n.name, n.loops, n.atomics, n.pos))
+	}
 	sum := map[string]any{"repo": repo, "packages": pkgs, "functions": len(g.nodes), "edges": nedges, "leaves": nleaves,
 		"locks": g.locks, "address_taken": len(g.addr), "exported_methods": len(g.exported), "result_nodes": len(g.results),
-		"entries": rows, "names": names}
+		"entries": rows, "names": names, "fields": g.fields, "shapes": shapes, "sync_inventory": g.syncInventory(), "shape_rows": shapeRows}
 	if js := args["json"]; js != "" {
 		b, _ := json.MarshalIndent(sum, "", " ")
 		if err := os.WriteFile(js, b, 0o644); err != nil {
